@@ -7,8 +7,8 @@
    not yet covered by a theorem are decided by the implementation <-> specification <->
    hardware differential run only (listed as unproved_forms in the evidence). *)
 From Coq Require Import ZArith Bool List.
-From AxV Require Import Bits Outcome Codes Iced State Rt Mem Trace Exec ExecP FrameTac FrameP ByteStore RegFile RegsP ISA CodeSem IsaP OperandP RmP MovP StoreP Alu32P MovxP DivP Div32P Div16P XmmP Examples.
-From AxG Require Import Flags Regs Operand Helpers Dispatch Frame I_div I_idiv I_mov I_xorps I_movups.
+From AxV Require Import Bits Outcome Codes Iced State Rt Mem Trace Exec ExecP FrameTac FrameP ByteStore RegFile RegsP ISA CodeSem IsaP OperandP RmP MovP StoreP Alu32P MovxP DivP Div32P Div16P XmmP Examples StepIsaP StepFaultP.
+From AxG Require Import Flags Regs Operand Helpers Dispatch DispatchEq Frame I_div I_idiv I_mov I_xorps I_movups.
 Local Open Scope Z_scope.
 
 Print Assumptions cond_matches_sdm.
@@ -184,6 +184,31 @@ Proof.
   - exact (movups_store_refines c i s Hwf HI Hn).
 Qed.
 
+(* the property at the level of the whole step (Model/Exec.v = execute.rs, with the regenerated
+   dispatcher): one step over MOV r64, [m] - no hook registered for MOV, limit not reached - succeeds
+   with the specification's state (counter incremented, finished exactly at the end of the code)
+   when the CPU completes the load, and fails with EMem / EPerm, nothing changed except RIP already
+   advanced, exactly when the CPU's load faults; no third outcome *)
+Theorem C06_step_mov_r64_m64 : forall decode c env s bytes i,
+  finished s = false ->
+  (match max_instr s with Some limit => limit <=? icount s | None => false end) = false ->
+  mem_read_executable_bytes (regs s RIP) s = (Ok bytes, s) ->
+  decode (regs s RIP) bytes = Some i ->
+  supported_mnemonic_try_from c (i_mnemonic i) (entered s i) = (Ok (i_mnemonic i), entered s i) ->
+  env (i_mnemonic i) = None ->
+  i_mnemonic i = M_Mov -> i_code i = C_Mov_r64_rm64 ->
+  wf_regs s -> Inv (mem s) -> 0 <= i_next_ip i < 2 ^ 64 -> 0 <= icount s < 2 ^ 64 - 1 ->
+  wf_mem_instr i -> i_op_count i = 2 ->
+  i_op_kind i 0 = OK_Register -> i_op_kind i 1 = OK_Memory -> is_gpr64 (i_op_register i 0) = true ->
+  match isa_exec (SMov 64) i (entered s i) with
+  | IDone s1 _ => Exec.step decode switch_instruction_mnemonic supported_mnemonic_try_from c env s
+                  = (Ok (negb (finished (after_step s1))), after_step s1)
+  | IFault FMem => exists e, (e = EMem \/ e = EPerm) /\
+                   Exec.step decode switch_instruction_mnemonic supported_mnemonic_try_from c env s = (Err e, entered s i)
+  | IFault _ => False
+  end.
+Proof. exact step_mov_r64_m64. Qed.
+
 Print Assumptions C06_rm64_source.
 Print Assumptions C06_div_rm64.
 Print Assumptions C06_idiv_rm64_partial.
@@ -197,3 +222,4 @@ Print Assumptions C06_div_rm8.
 Print Assumptions C06_idiv_rm16.
 Print Assumptions C06_idiv_rm8.
 Print Assumptions C06_vector_alignment.
+Print Assumptions C06_step_mov_r64_m64.
